@@ -1,3 +1,161 @@
-import EpsicProofs.FieldArith
+import EpsicProofs.Lemmas.GaussE
+import EpsicProofs.Lemmas.Stokes
+import EpsicProofs.Props.C09
+import EpsicProofs.Props.C03
+/-! # C01 — a mode's generated fields reproduce its Stokes mean and predicted covariance
+
+`Sim.getField P g` is `mode::get_field` (four deviates `g`, `rms = ½`, polarizer `P`);
+`Spinor.computeStokes` is `compute_stokes`; `Sim.modeCov S = Minkowski.outer S S` is the covariance the
+mode reports.  For **any** expectation functional with standard-normal moments of order ≤ 4
+(`GaussE 4 K`) and **any** polarizer with `P P† = convert(natural S)` (in particular the Hermitian
+square root the code computes): the ensemble mean of the Stokes parameters is `S` and their ensemble
+covariance is `Minkowski.outer S S`. -/
+set_option linter.unusedSectionVars false
+set_option linter.unusedVariables false
 namespace Epsic.C01
+open Epsic Matrix
+variable {K : Type} [Field K] [DecidableEq K] [CharZero K]
+
+/-- real 4-vector of a field instance: `(Re x, Im x, Re y, Im y)` -/
+def realField (e : Spinor K) : Fin 4 → K := fun i => match i with | 0 => e.x.re | 1 => e.x.im | 2 => e.y.re | 3 => e.y.im
+/-- the real 4×4 matrix taking the deviates to the real field vector -/
+def Tmat (P : Jones K) : Matrix (Fin 4) (Fin 4) K := fun i j => (1/2 : K) * match i, j with
+  | 0, 0 => P.j00.re | 0, 1 => -P.j00.im | 0, 2 => P.j01.re | 0, 3 => -P.j01.im
+  | 1, 0 => P.j00.im | 1, 1 => P.j00.re | 1, 2 => P.j01.im | 1, 3 => P.j01.re
+  | 2, 0 => P.j10.re | 2, 1 => -P.j10.im | 2, 2 => P.j11.re | 2, 3 => -P.j11.im
+  | 3, 0 => P.j10.im | 3, 1 => P.j10.re | 3, 2 => P.j11.im | 3, 3 => P.j11.re
+/-- the four quadratic forms of field detection: `S_k = rᵀ Σ_k r` -/
+def sig (k : Fin 4) : Matrix (Fin 4) (Fin 4) K := fun i j => match k, i, j with
+  | 0, 0, 0 => 1 | 0, 1, 1 => 1 | 0, 2, 2 => 1 | 0, 3, 3 => 1
+  | 1, 0, 0 => 1 | 1, 1, 1 => 1 | 1, 2, 2 => -1 | 1, 3, 3 => -1
+  | 2, 0, 2 => 1 | 2, 2, 0 => 1 | 2, 1, 3 => 1 | 2, 3, 1 => 1
+  | 3, 0, 3 => 1 | 3, 3, 0 => 1 | 3, 1, 2 => -1 | 3, 2, 1 => -1
+  | _, _, _ => 0
+/-- the covariance of the real field vector when `P P† = convert(natural S)` -/
+def Wmat (S : Stokes K) : Matrix (Fin 4) (Fin 4) K := fun i j => (1/4 : K) * match i, j with
+  | 0, 0 => S 0 + S 1 | 0, 2 => S 2 | 0, 3 => S 3
+  | 1, 1 => S 0 + S 1 | 1, 2 => -S 3 | 1, 3 => S 2
+  | 2, 0 => S 2 | 2, 1 => -S 3 | 2, 2 => S 0 - S 1
+  | 3, 0 => S 3 | 3, 1 => S 2 | 3, 3 => S 0 - S 1
+  | _, _ => 0
+
+def quadF (A : Matrix (Fin 4) (Fin 4) K) (x : Fin 4 → K) : K := x ⬝ᵥ (A *ᵥ x)
+theorem quadF_eq_sum (A : Matrix (Fin 4) (Fin 4) K) (x : Fin 4 → K) :
+    quadF A x = ∑ i, ∑ j, A i j * (x i * x j) := by
+  simp only [quadF, dotProduct, Matrix.mulVec, Finset.mul_sum]
+  apply Finset.sum_congr rfl; intro i _; apply Finset.sum_congr rfl; intro j _; ring
+theorem quadF_lin (A T : Matrix (Fin 4) (Fin 4) K) (g : Fin 4 → K) : quadF A (T *ᵥ g) = quadF (Tᵀ * A * T) g := by
+  simp only [quadF]
+  rw [Matrix.mulVec_mulVec, ← Matrix.mulVec_mulVec, Matrix.dotProduct_mulVec, Matrix.vecMul_mulVec,
+    ← Matrix.dotProduct_mulVec, Matrix.mulVec_mulVec]
+
+/-- the generated field is linear in the deviates -/
+theorem realField_getField (P : Jones K) (g : Fin 4 → K) : realField (Sim.getField P g) = Tmat P *ᵥ g := by
+  funext i
+  fin_cases i <;> simp [realField, Sim.getField, epsic, Tmat, Matrix.mulVec, dotProduct, Fin.sum_univ_four] <;> ring
+/-- field detection is the quadratic form `Σ_k` of the real field vector -/
+theorem computeStokes_eq (e : Spinor K) (k : Fin 4) : Spinor.computeStokes e k = quadF (sig k) (realField e) := by
+  fin_cases k <;>
+    simp [Spinor.computeStokes, quadF, sig, realField, Matrix.mulVec, dotProduct, Fin.sum_univ_four, epsic, Cx.norm_def] <;> ring
+/-- hence each instantaneous Stokes parameter is a quadratic form in the deviates -/
+theorem stokes_quadratic (P : Jones K) (g : Fin 4 → K) (k : Fin 4) :
+    Spinor.computeStokes (Sim.getField P g) k = quadF ((Tmat P)ᵀ * sig k * Tmat P) g := by
+  rw [computeStokes_eq, realField_getField, quadF_lin]
+
+/-- what "the polarizer is a root of the coherency matrix" means entry-wise -/
+def IsRoot (P : Jones K) (S : Stokes K) : Prop :=
+  P * P.herm = Pauli.convertHR (Pauli.natural Basis.linear S)
+
+theorem TT_eq_W (P : Jones K) (S : Stokes K) (h : IsRoot P S) : Tmat P * (Tmat P)ᵀ = Wmat S := by
+  have h00 := congrArg (fun j => j.j00.re) h
+  have h11 := congrArg (fun j => j.j11.re) h
+  have hc := congrArg (fun j => j.j01.re) h
+  have hd := congrArg (fun j => j.j01.im) h
+  simp [epsic] at h00 h11 hc hd
+  funext i j
+  rw [Matrix.mul_apply, Fin.sum_univ_four]
+  fin_cases i <;> fin_cases j <;> simp [Tmat, Wmat, Matrix.transpose_apply] <;>
+  first
+  | ring1
+  | linear_combination (1/4 : K) * h00
+  | linear_combination (1/4 : K) * h11
+  | linear_combination (1/4 : K) * hc
+  | linear_combination (1/4 : K) * hd
+  | linear_combination (-1/4 : K) * hd
+
+/-- traces against `W` reproduce the Stokes parameters … -/
+theorem trace_sig_W (S : Stokes K) (k : Fin 4) : Matrix.trace (sig k * Wmat S) = S k := by
+  simp only [Matrix.trace, Matrix.diag, Matrix.mul_apply, Fin.sum_univ_four]
+  fin_cases k <;> simp [sig, Wmat] <;> ring
+set_option maxHeartbeats 6400000 in
+/-- … and the fourth-moment traces are the Minkowski outer product -/
+theorem trace_sig_W_sig_W (S : Stokes K) (k l : Fin 4) :
+    2 * Matrix.trace (sig k * Wmat S * (sig l * Wmat S)) = Minkowski.outer S S k l := by
+  simp only [Matrix.trace, Matrix.diag, Matrix.mul_apply, Fin.sum_univ_four]
+  fin_cases k <;> fin_cases l <;> simp [sig, Wmat, Minkowski.outer, Minkowski.inner] <;> ring
+theorem sig_symm (k : Fin 4) : (sig k : Matrix (Fin 4) (Fin 4) K)ᵀ = sig k := by
+  funext i j; fin_cases k <;> fin_cases i <;> fin_cases j <;> simp [sig, Matrix.transpose_apply]
+
+/-- **ensemble mean of the generated Stokes parameters = the requested vector** -/
+theorem mean_stokes (G : GaussE 4 K) (P : Jones K) (S : Stokes K) (h : IsRoot P S) (k : Fin 4) :
+    G.E (fun g => Spinor.computeStokes (Sim.getField P g) k) = S k := by
+  simp only [stokes_quadratic, quadF_eq_sum]
+  rw [G.quad, Matrix.trace_mul_comm, ← Matrix.mul_assoc, TT_eq_W P S h, Matrix.trace_mul_comm, trace_sig_W]
+/-- **ensemble covariance of the generated Stokes parameters = the reported covariance matrix** -/
+theorem cov_stokes (G : GaussE 4 K) (P : Jones K) (S : Stokes K) (h : IsRoot P S) (k l : Fin 4) :
+    G.E (fun g => Spinor.computeStokes (Sim.getField P g) k * Spinor.computeStokes (Sim.getField P g) l) - S k * S l
+      = Sim.modeCov S k l := by
+  simp only [stokes_quadratic, quadF_eq_sum]
+  rw [G.quad_quad]
+  have hk : Matrix.trace ((Tmat P)ᵀ * sig k * Tmat P) = S k := by
+    rw [Matrix.trace_mul_comm, ← Matrix.mul_assoc, TT_eq_W P S h, Matrix.trace_mul_comm, trace_sig_W]
+  have hl : Matrix.trace ((Tmat P)ᵀ * sig l * Tmat P) = S l := by
+    rw [Matrix.trace_mul_comm, ← Matrix.mul_assoc, TT_eq_W P S h, Matrix.trace_mul_comm, trace_sig_W]
+  have hT : ((Tmat P)ᵀ * sig l * Tmat P)ᵀ = (Tmat P)ᵀ * sig l * Tmat P := by
+    rw [Matrix.transpose_mul, Matrix.transpose_mul, Matrix.transpose_transpose, sig_symm, Matrix.mul_assoc]
+  have hkl : Matrix.trace ((Tmat P)ᵀ * sig k * Tmat P * ((Tmat P)ᵀ * sig l * Tmat P))
+      = Matrix.trace (sig k * Wmat S * (sig l * Wmat S)) := by
+    rw [← TT_eq_W P S h]
+    calc Matrix.trace ((Tmat P)ᵀ * sig k * Tmat P * ((Tmat P)ᵀ * sig l * Tmat P))
+        = Matrix.trace ((Tmat P)ᵀ * (sig k * (Tmat P * (Tmat P)ᵀ) * (sig l * Tmat P))) := by
+          simp only [Matrix.mul_assoc]
+      _ = Matrix.trace (sig k * (Tmat P * (Tmat P)ᵀ) * (sig l * Tmat P) * (Tmat P)ᵀ) := Matrix.trace_mul_comm _ _
+      _ = Matrix.trace (sig k * (Tmat P * (Tmat P)ᵀ) * (sig l * (Tmat P * (Tmat P)ᵀ))) := by
+          simp only [Matrix.mul_assoc]
+  rw [hT, hk, hl, hkl]
+  have := trace_sig_W_sig_W S k l
+  simp only [Sim.modeCov]
+  linear_combination this
+
+/-- the polarizer the code builds is such a root: `sqrt(natural S)` squares back (C09) and is Hermitian -/
+theorem setStokes_isRoot (sqrtFn : K → R K) [LinearOrder K] [IsStrictOrderedRing K]
+    (hs : C10.SqrtSpec sqrtFn) (o : Quat.OrdLeaves K) (ho : C09.OrdSpec o)
+    (S : Stokes K) (P : Jones K) (hI : 0 ≤ S 0) (hdet : 0 ≤ Quat.detH (Pauli.natural Basis.linear S))
+    (h : Sim.setStokes sqrtFn o Basis.linear S = .ok P) : IsRoot P S := by
+  unfold Sim.setStokes at h
+  cases hr : Quat.sqrtH sqrtFn o (Pauli.natural Basis.linear S) with
+  | error e => simp [hr, bind, Except.bind] at h
+  | ok r =>
+    simp only [hr, bind, Except.bind, pure, Except.pure] at h
+    have hP : P = Pauli.convertHR r := by cases h; rfl
+    have hs0 : 0 ≤ (Pauli.natural Basis.linear S).s0 := by simpa [epsic] using hI
+    have := C09.sqrt_sq_matrix sqrtFn hs o ho _ r hs0 hdet hr
+    unfold IsRoot
+    rw [hP, C03.convertHR_hermitian]; exact this
+
+/-- successive instances use disjoint deviates; the reported cross-covariance: zero at every
+non-zero lag, the covariance at lag zero -/
+theorem crosscov_lags (S : Stokes K) : Sim.modeXCov (Sim.modeCov S) 0 = Sim.modeCov S ∧
+    ∀ l, 0 < l → Sim.modeXCov (Sim.modeCov S) l = Mat.ofScalar 0 := by
+  constructor
+  · simp [Sim.modeXCov]
+  · intro l hl; simp [Sim.modeXCov, hl]
+
+/-! non-vacuity: the cubature with nodes `0, ±1, ±2` and weights `1/2, 1/6, 1/12` per deviate has the
+required moments; here the one-deviate moment equations it rests on -/
+example : (2 * ((1:ℚ)/6 * 1 + 1/12 * 4) = 1) ∧ (2 * ((1:ℚ)/6 * 1 + 1/12 * 16) = 3) ∧ ((1:ℚ)/2 + 2 * (1/6 + 1/12) = 1) := by
+  norm_num
+example : IsRoot (⟨⟨1, 0⟩, ⟨0, 0⟩, ⟨0, 0⟩, ⟨1, 0⟩⟩ : Jones ℚ) (v4 1 0 0 0) := by
+  unfold IsRoot; ext <;> simp [epsic]
+
 end Epsic.C01
